@@ -94,3 +94,16 @@ func (this *LedgerStoreImp) VerifHeaderCacheLen() int {
 	defer this.lock.RUnlock()
 	return len(this.headerCache)
 }
+
+// VerifPrefillHeaderIndex grows the in-memory header index to n entries with a dummy hash (existing entries are
+// kept), so that GetCurrentHeaderHeight reports n-1: the only way for a test ledger to reach the header heights at
+// which verifyHeader selects the modern signature threshold.
+func (this *LedgerStoreImp) VerifPrefillHeaderIndex(n uint32) {
+	this.lock.Lock()
+	defer this.lock.Unlock()
+	var dummy common.Uint256
+	dummy[0] = 0xff
+	for i := uint32(len(this.headerIndex)); i < n; i++ {
+		this.headerIndex[i] = dummy
+	}
+}
